@@ -1,17 +1,24 @@
 #!/bin/bash
-# Mutant kill run: every seeded change (and every fix-revert) against the quick check of its property.
-# Writes /verif/seeded/MATRIX.tsv. /repo must be clean; it is restored after every run.
-cd /verif; out=${MATRIX_OUT:-seeded/MATRIX.tsv}; : > $out
+# Mutant kill run: every seeded change (and every fix-revert) against the quick check of its property, three at a
+# time, each built in a private scratch worktree (tools/try_mutant_wt.sh; /repo's working tree is not touched).
+# Writes ${MATRIX_OUT:-seeded/MATRIX.tsv}; honours VERIF_SEED.
+cd /verif; out=${MATRIX_OUT:-seeded/MATRIX.tsv}; tmp=$(mktemp -d /verif/work/matrix.XXXX)
+mkdir -p $tmp/snap; cp -r vmon known_findings.json findings $tmp/snap/; export VMON_SNAP=$tmp/snap   # later edits do not leak in
 run() { # name patch prop
-  res=$(tools/try_mutant.sh "$2" "$3" 2>&1 | tail -1)
-  echo -e "$1\t$3\t$res" | tee -a $out
+  res=$(/verif/tools/try_mutant_wt.sh "$2" "$3" "$1" 2>&1 | tail -1)
+  echo -e "$1\t$3\t$res" > $4/$1.line
 }
+export -f run
+{
 for d in seeded/*/; do
   n=$(basename $d); p=${n%%-*}
   [ -f $d/patch.diff ] || continue
-  run $n /verif/$d/patch.diff $p
+  echo "$n /verif/$d/patch.diff $p $tmp"
 done
 for f in mutants/fix-reverts/*.diff; do
   n=$(basename $f .diff); p=${n%%-*}
-  run $n /verif/$f $p
+  echo "$n /verif/$f $p $tmp"
 done
+} | xargs -P ${MATRIX_JOBS:-3} -L 1 bash -c 'run $0 $1 $2 $3'
+cat $tmp/*.line | sort > $out; rm -rf $tmp
+cat $out
